@@ -101,6 +101,57 @@ def malformed_scripts(rng, tier):
     return out
 
 
+def forged_scripts(rng, tier):
+    """packets with VALID tags (made with the stream's own keys: a buggy or malicious peer) whose lengths and
+    header fields sit next to every length check of the unprotect functions"""
+    out = []
+    n = 10 if tier == "quick" else 80
+    for k in range(n):
+        M = rng.choice([1, 2, 4, 4, 8, 16, 128])
+        tag = rng.choice([4, 10, 10, 16])
+        conf = rng.choice([3, 3, 2])
+        cipher = rng.choice([ICM128, ICM128, NULL_CIPHER])
+        nk = rng.choice([1, 2])
+        keys = [(rand_key(rng, 30), bytes([(i * 51 + j) & 0xff for j in range(M)])) for i in range(nk)]
+        p = default_policy(rng, 0, ssrc_type=SSRC_ANY_IN, rtp=cp(cipher=cipher, taglen=tag, serv=conf), rtcp=cp(cipher=cipher, taglen=tag, serv=conf),
+                           keys=keys, use_mki=True, mki_size=M, use_key_field=False, cryptex=rng.random() < 0.2)
+        L = [p.line(1), "create 2 1"]
+        ki = rng.randrange(nk)
+        mki = keys[ki][1]
+        # ---- SRTCP: total length from tag+M up to 12+tag+M+3
+        for tot in sorted(set(list(range(tag + M, 12 + tag + M + 4)) + [8 + tag + M, 12 + tag, 12 + tag + M - 1, 12 + tag + M])):
+            auth_len = tot - tag - M
+            if auth_len < 0 or tot < 12:
+                continue
+            body = bytearray(rand_key(rng, auth_len))
+            if auth_len >= 4:
+                body[auth_len - 4] = (body[auth_len - 4] & 0x7f) | (0x80 if conf & 1 else 0)
+            if rng.random() < 0.3 and auth_len >= 4:
+                body[auth_len - 4] ^= 0x80
+            L.append(f"mktag 2 1 0 {H(ki)} 1 | {hexb(bytes(body))}"); t = len(L)
+            L.append(pkt_op("unprotect_rtcp", 2, f"{hexb(bytes(body) + mki)}&{t:x}:0", cap=rng.choice([tot, tot + 50, max(tot - tag - M - 4, 0)]), mode=rng.choice([0, 1])))
+        # ---- SRTP: extension / CSRC lengths that run into the MKI / tag region
+        for i in range(14 if tier == "quick" else 40):
+            cc = rng.choice([0, 0, 1, 15])
+            x = rng.choice([0, 1, 1])
+            pay = rng.choice([0, 1, 4, 16])
+            extw = rng.choice([0, 1, 2, 3])
+            hdr = 12 + 4 * cc
+            plain_len = hdr + (4 + 4 * extw if x else 0) + pay
+            # claim an extension longer than what precedes the trailer by d words
+            d = rng.choice([0, 0, 1, 2, (M + tag + 3) // 4, (M + tag + 3) // 4 + 1])
+            body = bytearray(rtp_packet(rng.randrange(1, 1 << 32), rng.randrange(65536), payload=rand_key(rng, pay), cc=cc,
+                                        ext=((rng.choice([0xBEDE, 0x1000, 0xC0DE, 0xC2DE]), rand_key(rng, 4 * extw)) if x else None)))
+            if x:
+                body[hdr + 2:hdr + 4] = (extw + d).to_bytes(2, "big")
+            L.append(f"mktag 2 1 0 {H(ki)} 0 | {hexb(bytes(body) + bytes(4))}"); t = len(L)
+            tot = len(body) + M + tag
+            L.append(pkt_op("unprotect", 2, f"{hexb(bytes(body) + mki)}&{t:x}:0", cap=rng.choice([tot, len(body), max(len(body) - 1, 0), hdr]), mode=rng.choice([0, 1, 2])))
+        L.append("dealloc 2")
+        out.append((f"forged-{k}", "\n".join(L) + "\n"))
+    return out
+
+
 def monitor(script, c):
     hits = []
     for l in c:
@@ -119,4 +170,5 @@ def monitor(script, c):
 def families(tier, seed):
     rng = random.Random(seed * 1000 + 10)
     return [Family("policy-envelope", envelope_scripts(rng, tier), monitor=monitor),
-            Family("malformed-packets", malformed_scripts(rng, tier), monitor=monitor)]
+            Family("malformed-packets", malformed_scripts(rng, tier), monitor=monitor),
+            Family("forged-by-key-holder", forged_scripts(rng, tier), monitor=monitor)]
